@@ -94,7 +94,7 @@ def r1(repo, res):
     res.analysed(init)
     # what the constructor dispatches to, directly or through methods it delegates the dispatch to
     reach = _self_methods_called(repo, init)
-    called = {c.func.attr for fn_ in reach for c in calls_in(fn_) if isinstance(c.func, ast.Attribute)}
+    called = {c.func.attr for fn_ in reach for c in ast.walk(fn_) if isinstance(c, ast.Call) and isinstance(c.func, ast.Attribute)}   # nested readers included
     present = [l for l in LOADERS if l in called and repo.has_func(f"sam::Sample.{l}")]
     res.floor("C16.R1", "loaders dispatched by Sample.__init__", len(present), 5)
 
